@@ -417,7 +417,7 @@ func Run(peer *Peer, torEvent chan<- TorEvent, torDone <-chan struct{},
 			}
 		case <-ticker.C:
 			expired := expireRequests(peer)
-			if expired {
+			if expired || peer.requests.Queue() > 0 {
 				maybeRequest(peer)
 			}
 
